@@ -25,6 +25,7 @@ META = {
 def model_kw(tier):
   return dict(max_nodes=12 if tier == 'thorough' else 8, max_subgraphs=2,
               reuse_const=True, share_buffers=False, dedup=True,
+              ops=G.ALL_OPS + ['GATE'],   # GATE: GREATER + SELECT, a BOOL tensor
               # incl. all-zero / tiny / huge / lattice constants: degenerate weight
               # channels and biases far from the scale product
               const_styles=G.CONST_STYLES_SANE * 3 + G.CONST_STYLES_ALL)
